@@ -55,6 +55,11 @@ type fnSpec struct {
 	heartbeats   int               // elaboration budget of the generated module (0 = Lean's default); a large nest of local recursive functions needs more than the default to be compiled, never "unlimited"
 	joins        bool              // translate the code after a branching statement once, as a local join point (see tryJoin)
 	selfRec      bool              // the function calls itself: the generated definition takes the function to call as its first argument (`self`)
+	holdLocks    []string          // mutexes that must be held wherever the function reads substituted state, makes a recorded call or sends (checked along every path)
+	unguarded    map[string]bool   // substituted expressions that holdLocks does not cover (fields that never change)
+	selects      map[int]string    // select statement number (source order) -> the oracle that decides it ("§name@var,…")
+	chanSends    map[string]string // channel -> constructor of Gen.Eff recorded when a value is sent on it in a select
+	oneofView    string            // the oneof table to read literals of oneof members with (where a Go wrapper type is listed in more than one)
 	inlineClosures bool            // local procedures (function literals without results or returns, bound to a name) are expanded where they are called (see expandClosures)
 	extConsts    map[string]string // constants of package constants the function names -> their value (checked against constants/const.go)
 }
@@ -581,8 +586,71 @@ var ribFlushSpec = fnSpec{
 		"niR.r.Afts.NextHopGroup#3": "§nhgsRest@niR",
 		"niR.r.Afts.NextHop":        "§nhs@niR",
 	},
+	holdLocks: []string{"r.txMu", "niR.mu"},
 	effects: true,
 	typeMap: map[string]string{"aft.Afts_NextHopGroup": "FlNHG"},
+}
+
+
+// RIBHolder.GetRIB. The tables are read where the Go code ranges over them (under the instance's
+// read lock: holdLocks), the conversions of the installed entries to protobufs are oracles, and
+// each select statement is decided by an oracle: whether the reader has gone away when an entry is
+// reached (stop…, a function of the entry's key), and whether a message is delivered or the reader
+// goes away first (delivered, a function of the message).
+var ribGetRIBSpec = fnSpec{
+	file: "rib/rib.go", goName: "GetRIB", recvType: "*RIBHolder", callAs: "niR.GetRIB§", leanName: "getRIB", valueLoops: true, joins: true,
+	params: []param{
+		{goName: "filter", goType: "map[spb.AFTType]bool", lean: "filter", kd: kind{k: "set"}},
+		{goName: "msgCh", goType: "chan *spb.GetResponse", lean: "msgCh", kd: kStr, skip: true},
+		{goName: "stopCh", goType: "chan struct{}", lean: "stopCh", kd: kStr, skip: true},
+	},
+	goRets: "error", rets: []string{"err"},
+	oracleParams: []param{
+		{goName: "§name", lean: "name", kd: kStr},
+		{goName: "§v4", lean: "v4", kd: kind{k: "map", s: "TblEntry", t: []kind{kStr}}},
+		{goName: "§v6", lean: "v6", kd: kind{k: "map", s: "TblEntry", t: []kind{kStr}}},
+		{goName: "§mpls", lean: "mpls", kd: kind{k: "map", s: "TblEntry", t: []kind{kNat}}},
+		{goName: "§nhgs", lean: "nhgs", kd: kind{k: "map", s: "TblEntry", t: []kind{kNat}}},
+		{goName: "§nhs", lean: "nhs", kd: kind{k: "map", s: "TblEntry", t: []kind{kNat}}},
+		{goName: "§conv4", lean: "conv4", kd: kind{k: "fun", t: []kind{kPtr("GPrefix"), kPtr("TblEntry")}}},
+		{goName: "§conv4Err", lean: "conv4Err", kd: kind{k: "fun", t: []kind{{k: "statusval"}, kPtr("TblEntry")}}},
+		{goName: "§conv6", lean: "conv6", kd: kind{k: "fun", t: []kind{kPtr("GPrefix"), kPtr("TblEntry")}}},
+		{goName: "§conv6Err", lean: "conv6Err", kd: kind{k: "fun", t: []kind{{k: "statusval"}, kPtr("TblEntry")}}},
+		{goName: "§convM", lean: "convM", kd: kind{k: "fun", t: []kind{kPtr("GLabel"), kPtr("TblEntry")}}},
+		{goName: "§convMErr", lean: "convMErr", kd: kind{k: "fun", t: []kind{{k: "statusval"}, kPtr("TblEntry")}}},
+		{goName: "§convG", lean: "convG", kd: kind{k: "fun", t: []kind{kPtr("GId"), kPtr("TblEntry")}}},
+		{goName: "§convGErr", lean: "convGErr", kd: kind{k: "fun", t: []kind{{k: "statusval"}, kPtr("TblEntry")}}},
+		{goName: "§convH", lean: "convH", kd: kind{k: "fun", t: []kind{kPtr("GIndex"), kPtr("TblEntry")}}},
+		{goName: "§convHErr", lean: "convHErr", kd: kind{k: "fun", t: []kind{{k: "statusval"}, kPtr("TblEntry")}}},
+		{goName: "§delivered", lean: "delivered", kd: kind{k: "fun", t: []kind{kBool, kPtr("GetResponseG")}}},
+		{goName: "§stop4", lean: "stop4", kd: kind{k: "fun", t: []kind{kBool, kStr}}},
+		{goName: "§stop6", lean: "stop6", kd: kind{k: "fun", t: []kind{kBool, kStr}}},
+		{goName: "§stopM", lean: "stopM", kd: kind{k: "fun", t: []kind{kBool, kNat}}},
+		{goName: "§stopG", lean: "stopG", kd: kind{k: "fun", t: []kind{kBool, kNat}}},
+		{goName: "§stopH", lean: "stopH", kd: kind{k: "fun", t: []kind{kBool, kNat}}},
+	},
+	oracles: map[string]oracle{
+		"ConcreteIPv4Proto":         {results: []string{"§conv4@0", "§conv4Err@0"}, errOf: true},
+		"ConcreteIPv6Proto":         {results: []string{"§conv6@0", "§conv6Err@0"}, errOf: true},
+		"ConcreteMPLSProto":         {results: []string{"§convM@0", "§convMErr@0"}, errOf: true},
+		"ConcreteNextHopGroupProto": {results: []string{"§convG@0", "§convGErr@0"}, errOf: true},
+		"ConcreteNextHopProto":      {results: []string{"§convH@0", "§convHErr@0"}, errOf: true},
+	},
+	subst: map[string]string{
+		"r.name":                "§name",
+		"r.r.Afts.Ipv4Entry":    "§v4",
+		"r.r.Afts.Ipv6Entry":    "§v6",
+		"r.r.Afts.LabelEntry":   "§mpls",
+		"r.r.Afts.NextHopGroup": "§nhgs",
+		"r.r.Afts.NextHop":      "§nhs",
+	},
+	selects:   map[int]string{1: "§delivered@m", 2: "§stop4@pfx", 3: "§stop6@pfx", 4: "§stopM@lbl", 5: "§stopG@index", 6: "§stopH@id"},
+	chanSends: map[string]string{"msgCh": "getEmit"},
+	holdLocks: []string{"r.mu"},
+	unguarded: map[string]bool{"r.name": true},
+	effects:   true,
+	typeMap:   map[string]string{"GetResponse": "GetResponseG", "AFTEntry": "GAFTEntry"},
+	oneofView: "GEntryKind",
 }
 
 var ribSpecs = []fnSpec{
@@ -1009,4 +1077,5 @@ func init() {
 	specs = append(specs, clientSpecs2...)
 	specs = append(specs, ribSpecs...)
 	specs = append(specs, ribFlushSpec)
+	specs = append(specs, ribGetRIBSpec)
 }
